@@ -50,6 +50,7 @@ inductive Def where
   | snapshotn (s : Nat) (cs : List Nat)
   | gate (s c : Nat)
   | hold (s : Nat) (k : Int)
+  | holdz (s : Nat) (c : Nat)        -- `hold_lazy` of a Lazy of cell `c` that could not be read yet (an open CellLoop)
   | once (s : Nat)
   | updates (c : Nat)
   | value (c : Nat)
@@ -69,7 +70,7 @@ inductive Def where
 
 /-- is the definition a cell (has a current value)?  `collect` is a stream with a hidden state. -/
 def Def.isCell : Def → Bool
-  | .csink _ | .const _ | .hold .. | .mapc .. | .lift2 .. | .liftn _ | .accum .. | .switchc .. | .cloop => true
+  | .csink _ | .const _ | .hold .. | .holdz .. | .mapc .. | .lift2 .. | .liftn _ | .accum .. | .switchc .. | .cloop => true
   | _ => false
 
 structure Spec where
@@ -95,6 +96,7 @@ def cellVal (sp : Spec) : Nat → Nat → Option Int
     | none =>
       match sp.getDef i with
       | .csink k | .const k | .hold _ k | .accum _ k _ | .collect _ k _ => some k
+      | .holdz _ c => cellVal sp fuel c      -- until the end of its defining transaction (then stored)
       | .mapc c k => (cellVal sp fuel c).map (f1 k)
       | .lift2 a b op => do let x ← cellVal sp fuel a; let y ← cellVal sp fuel b; pure (f2 op x y)
       | .liftn cs => (cs.mapM (cellVal sp fuel)).map fN
@@ -152,6 +154,7 @@ def fireOf (sp : Spec) (ev : Events) (look : Nat → Option (Option Int)) (i : N
   | .snapshotn s cs => (look s).map (·.bind fun x => (cs.mapM v).map fun ys => fN (x :: ys))
   | .gate s c => (look s).map (·.filter fun _ => ((v c).map even).getD false)
   | .hold s _ => look s
+  | .holdz s _ => look s
   | .once s => if sp.onceDone.get i then some none else look s
   | .updates c => look c
   | .value c => (look c).map fun u =>
@@ -218,6 +221,14 @@ def applyUpdates (sp : Spec) (tbl : Table) : Spec :=
       (match fire tbl s, sp.val i with
        | some x, some stv => st.set i (some (f2 (op + 1) x stv))
        | _, _ => st)
+    | .holdz _ c =>
+      -- an event wins; otherwise the Lazy's value (the cell `c` as it was when this transaction
+      -- started) becomes the cell's own value as soon as it can be read
+      (match fire tbl i with
+       | some v => st.set i (some v)
+       | none => (match sp.stored.get i, sp.val c with
+          | none, some v => st.set i (some v)
+          | _, _ => st))
     | d => if d.isCell then (match fire tbl i with | some v => st.set i (some v) | none => st) else st) sp.stored
   let once := (List.range n).foldl (fun od i =>
     match sp.getDef i with
